@@ -32,6 +32,8 @@ CLAIMED = {
    text="TLC checks all 2048 subsets of the shape words (and all FromVariant forms) against every body incl. unions and empty enums: verdict and error count of the transcribed validator equal the documented table; a compiled family of receivers (all 2048 in the thorough tier) is executed on every body and the stand-alone ShapeSet API is checked exhaustively."),
  "C16": dict(engine="Body", design_ref="4.7, 5/C16", technique="TLA+ spec of body conversion (Body.tla: Data::try_from / Fields::try_from / variant fields) model-checked with TLC against the declarative verdict and failure set; every body replayed on a generated family of receivers over all subsets of magic fields, parts compared token-wise with the input",
    text="TLC checks for every body within bounds and every assignment of failing members that conversion fails exactly when a member fails or the element is a union, keeps one entry per member in source order and reports every failure with named fields located by name; each body is then rendered with varied visibility / types / generics and given to receivers declaring every subset of magic fields (plain, custom converter, SpannedValue / WithOriginal / Result wrappers), whose every part must equal the input's."),
+ "C15": dict(engine="NestedMetaGrammar+MetaRouting", design_ref="4.3, 4.4, 5/C15", technique="TLA+ specs (NestedMetaGrammar.tla: peek-driven parser vs declarative list grammar; MetaRouting.tla: call-stack machine of the trait's default methods vs routing-by-form) model-checked with TLC exhaustively; every string / every (hook set, item, mode) replayed on the real parser and on 128 probe implementers",
+   text="TLC checks that the transcribed parser and the declarative definition of a nested-meta list agree on every token-class string up to the bound, and that for all 128 override sets the dispatch machine routes every item form to exactly one hook or the documented default rejection with the error spanned on the way out; each string is materialised and parsed by the real parse_meta_list (verdict, order, classification, print/re-parse identity), and each routing case is executed on a real probe implementer that logs its calls."),
 }
 
 NOT_YET = "check not built yet (planned, see DESIGN.md section 5)"
